@@ -747,10 +747,10 @@ func ecall(t *sty) *pexpr                 { return &pexpr{K: "call", T: t} }
 func ebin(op string, l, r *pexpr) *pexpr  { return &pexpr{K: "bin", Op: op, Args: []*pexpr{l, r}} }
 
 var (
-	tNum = &sty{K: "num"}
-	tStr = &sty{K: "string"}
+	c04tNum = &sty{K: "num"}
+	c04tStr = &sty{K: "string"}
 	tBoo = &sty{K: "bool"}
-	tAny = &sty{K: "any"}
+	c04tAny = &sty{K: "any"}
 )
 
 // a constant literal whose inferred (strictest) type is t; nil if none exists
@@ -823,7 +823,7 @@ func c04ValueForms(d int, extras bool) []valueForm {
 		}
 		c := constLit(t)
 		out = append(out, valueForm{"call", ecall(t), false})
-		out = append(out, valueForm{"assert", &pexpr{K: "assert", T: t, Args: []*pexpr{evar(tAny)}}, false})
+		out = append(out, valueForm{"assert", &pexpr{K: "assert", T: t, Args: []*pexpr{evar(c04tAny)}}, false})
 		out = append(out, valueForm{"index-of-variable", lit("index", evar(&sty{K: "arr", Sub: t}), lit("n")), false})
 		out = append(out, valueForm{"dot-of-variable", lit("dot", evar(&sty{K: "map", Sub: t})), false})
 		out = append(out, valueForm{"literal-with-composite-variable", lit("arr", evar(t)), false})
@@ -850,8 +850,8 @@ func c04ValueForms(d int, extras bool) []valueForm {
 		}
 	}
 	out = append(out,
-		valueForm{"literal-with-basic-variable", lit("arr", lit("n"), evar(tNum)), false},
-		valueForm{"literal-with-basic-variable", lit("map", evar(tStr)), false},
+		valueForm{"literal-with-basic-variable", lit("arr", lit("n"), evar(c04tNum)), false},
+		valueForm{"literal-with-basic-variable", lit("map", evar(c04tStr)), false},
 		valueForm{"literal-with-basic-variable", lit("arr", lit("arr", evar(tBoo))), false},
 		valueForm{"repeat-empty", ebin("*", lit("arr"), lit("n")), false},
 		valueForm{"concat-empties", ebin("+", lit("arr"), lit("arr")), false},
@@ -862,7 +862,7 @@ func c04ValueForms(d int, extras bool) []valueForm {
 		valueForm{"slice-of-empty", &pexpr{K: "slice", Args: []*pexpr{lit("arr"), nil, nil}}, false},
 		valueForm{"group-slice-of-empty", lit("group", &pexpr{K: "slice", Args: []*pexpr{lit("arr"), nil, nil}}), false},
 		valueForm{"index-of-empty", lit("index", lit("arr"), lit("n")), false},
-		valueForm{"call-any", ecall(tAny), false},
+		valueForm{"call-any", ecall(c04tAny), false},
 		valueForm{"constant-any-element", lit("index", lit("arr", lit("n"), lit("s")), lit("n")), false},
 	)
 	return out
@@ -886,11 +886,11 @@ func c04RunImpl(src string) c04Verdict {
 	out := RunEvy(src, RunOpts{YieldBudget: 100000})
 	switch {
 	case out.Class == "parse-error":
-		return c04Verdict{V: "reject", Why: firstLine(out.ParseErr)}
+		return c04Verdict{V: "reject", Why: c04firstLine(out.ParseErr)}
 	case out.Class == "gopanic" && out.Prog == nil:
-		return c04Verdict{V: "crash", Why: panicClass(out.GoPanic)}
+		return c04Verdict{V: "crash", Why: c04panicClass(out.GoPanic)}
 	case out.Class == "gopanic":
-		return c04Verdict{V: "accept", Typeof: "<run-time Go panic>", Why: panicClass(out.GoPanic)}
+		return c04Verdict{V: "accept", Typeof: "<run-time Go panic>", Why: c04panicClass(out.GoPanic)}
 	}
 	tf := "<no output>"
 	if len(out.Prints) > 0 {
@@ -901,14 +901,14 @@ func c04RunImpl(src string) c04Verdict {
 	return c04Verdict{V: "accept", Typeof: tf, Why: out.Class}
 }
 
-func firstLine(s string) string {
+func c04firstLine(s string) string {
 	if i := strings.IndexByte(s, '\n'); i >= 0 {
 		return s[:i]
 	}
 	return s
 }
 
-func panicClass(msg string) string {
+func c04panicClass(msg string) string {
 	switch {
 	case strings.Contains(msg, "untyped array"):
 		return "wrapany-untyped-array"
@@ -1062,14 +1062,14 @@ func c04Programs(cfg Config, r *Result, model, spec *Model) {
 			m++
 		}
 		// index / slice / dot / assertion on every operand form
-		for _, ix := range []*pexpr{lit("n"), lit("s"), lit("b"), evar(tNum), evar(tStr), evar(tAny)} {
+		for _, ix := range []*pexpr{lit("n"), lit("s"), lit("b"), evar(c04tNum), evar(c04tStr), evar(c04tAny)} {
 			c04DoCell(r, model, spec, c04Cell{Ctx: pctx{K: "decl"}, Form: valueForm{"indexed-" + f.Kind, lit("index", f.E, ix), true}}, "")
 			c04DoCell(r, model, spec, c04Cell{Ctx: pctx{K: "decl"}, Form: valueForm{"sliced-" + f.Kind, &pexpr{K: "slice", Args: []*pexpr{f.E, ix, nil}}, true}}, "")
 			m += 2
 		}
 		c04DoCell(r, model, spec, c04Cell{Ctx: pctx{K: "decl"}, Form: valueForm{"sliced-" + f.Kind, &pexpr{K: "slice", Args: []*pexpr{f.E, nil, nil}}, true}}, "")
 		c04DoCell(r, model, spec, c04Cell{Ctx: pctx{K: "decl"}, Form: valueForm{"dotted-" + f.Kind, lit("dot", f.E), true}}, "")
-		for _, at := range []*sty{tNum, tAny, {K: "arr", Sub: tNum}} {
+		for _, at := range []*sty{c04tNum, c04tAny, {K: "arr", Sub: c04tNum}} {
 			c04DoCell(r, model, spec, c04Cell{Ctx: pctx{K: "decl"}, Form: valueForm{"asserted-" + f.Kind, &pexpr{K: "assert", T: at, Args: []*pexpr{f.E}}, true}}, "")
 			m++
 		}
